@@ -189,9 +189,24 @@ func (x *Xlat) loopBegin(st *State, fr *Frame, n ast.Node) *loopCtx {
 
 func (x *Xlat) loopInvs(st *State, fr *Frame, lc *loopCtx, n ast.Node, phase string, assume bool) {
 	if lc.spec == nil {
+		// no annotation on this loop: the head is still covered when the function under verification has preconditions
+		if assume && !st.dead() && x.lock == nil && x.fi != nil && x.fi.Spec != nil && len(x.fi.Spec.Requires) > 0 {
+			o := x.emit(st, lc.prefix+".cover.head", "cover", TFalse, n.Pos(), "loop head is reachable (must NOT be unsat)")
+			o.Cover = true
+		}
 		return
 	}
 	env := x.newSpecEnvFrame(st, fr, n.Pos())
+	assumed := 0
+	defer func() {
+		// vacuity guard: with the invariants assumed the loop head must still be reachable. An unsatisfiable head (a
+		// contradictory invariant or precondition, an inconsistency introduced by the encoding) would make every
+		// obligation of the body trivially provable.
+		if assume && assumed > 0 && !st.dead() && x.lock == nil {
+			o := x.emit(st, lc.prefix+".cover.head", "cover", TFalse, n.Pos(), "loop head is reachable under the invariants (must NOT be unsat)")
+			o.Cover = true
+		}
+	}()
 	for i, inv := range lc.spec.Invs {
 		if !inv.inView(x.view) {
 			continue
@@ -199,6 +214,7 @@ func (x *Xlat) loopInvs(st *State, fr *Frame, lc *loopCtx, n ast.Node, phase str
 		g := env.evalBool(inv.Expr)
 		if assume {
 			st.assume(g)
+			assumed++
 		} else {
 			nm := fmt.Sprintf("%s.inv.%d.%s", lc.prefix, i+1, phase)
 			if inv.Name != "" {
